@@ -34,6 +34,7 @@ import (
 // ---------------------------------------------------------------------------------------------
 
 type pendingX struct {
+	failed bool // Express returned an error for it: it never left, it can only time out
 	xid  int
 	name enc.Name
 	cfg  ndn.InterestConfig
@@ -44,6 +45,10 @@ type fakeEngine struct {
 	timer   ndn.Timer
 	pending []*pendingX
 	nextX   int
+	// send-fault injection: Express returns an error for the Interests chosen by failSend, but — like basic.Engine, which
+	// inserts the PIT entry before face.Send — the Interest stays pending and will still time out later
+	failSend func(name enc.Name) bool
+	sendErrs []int
 }
 
 func (e *fakeEngine) EngineTrait() ndn.Engine                                  { return e }
@@ -66,6 +71,11 @@ func (e *fakeEngine) Express(i *ndn.EncodedInterest, cb ndn.ExpressCallbackFunc)
 	p := &pendingX{xid: e.nextX, name: pkt.Interest.Name().Clone(), cfg: *i.Config, cb: cb}
 	e.nextX++
 	e.pending = append(e.pending, p)
+	if e.failSend != nil && e.failSend(p.name) {
+		e.sendErrs = append(e.sendErrs, p.xid)
+		p.failed = true
+		return fmt.Errorf("write unix: broken pipe")
+	}
 	return nil
 }
 
@@ -207,13 +217,13 @@ func (fc *fetchCase) dump() {
 		strings.Join(pend, ";"), strings.Join(ss, " "))
 }
 
-// guarded runs f; if it does not return within 20 s of wall time the code under test is looping: record and exit.
+// guarded runs f; if it does not return within 8 s of wall time the code under test is looping: record and exit.
 func (fc *fetchCase) guarded(what string, f func()) {
 	done := make(chan struct{})
 	go func() {
 		select {
 		case <-done:
-		case <-time.After(20 * time.Second):
+		case <-time.After(8 * time.Second):
 			fc.o.pf("HANG %s\n", what)
 			fc.o.pf("END\n")
 			fc.o.close()
@@ -232,7 +242,14 @@ func TestFetchTrace(t *testing.T) {
 	defer o.close()
 	for i := 0; i < n; i++ {
 		starve := i%6 == 1
-		runFetchCase(o, r, !starve && r.Intn(8) == 0, starve)
+		fc := runFetchCaseOpt{starve: starve, sendFault: i%6 == 3, bigSegs: 0}
+		if i%20 == 2 {
+			fc.bigSegs = 70 // more segments than any plausible queue capacity below the window
+		} else if i%20 == 12 {
+			fc.bigSegs = 120
+		}
+		fc.adversarial = !starve && !fc.sendFault && fc.bigSegs == 0 && r.Intn(8) == 0
+		runFetchCase(o, r, fc)
 	}
 }
 
@@ -249,7 +266,13 @@ func resultLine(xid int, kind string, d ndn.Data, meta string) string {
 
 // starve: two consumers on one client; the first one's object is large enough to fill the shared window and then every one
 // of its remaining segments is lost on every transmission; the second consumer is started while the window is full.
-func runFetchCase(o *out, r *rand.Rand, adversarial bool, starve bool) {
+type runFetchCaseOpt struct {
+	adversarial, starve, sendFault bool
+	bigSegs                        int
+}
+
+func runFetchCase(o *out, r *rand.Rand, opt runFetchCaseOpt) {
+	adversarial, starve := opt.adversarial, opt.starve
 	fc := &fetchCase{o: o, eng: &fakeEngine{timer: basic.NewTimer()}, objects: map[string]*pubObject{}, r: r}
 	fc.cli = object.NewClient(fc.eng, object.NewMemoryStore())
 	o.pf("FETCH\n")
@@ -264,6 +287,9 @@ func runFetchCase(o *out, r *rand.Rand, adversarial bool, starve bool) {
 		nseg := 1 + r.Intn(4)
 		if r.Intn(3) == 0 {
 			nseg = 8 + r.Intn(18)
+		}
+		if opt.bigSegs > 0 && i == 0 {
+			nseg = opt.bigSegs
 		}
 		if starve && i == 0 {
 			nseg = 12 + r.Intn(10)
@@ -294,6 +320,36 @@ func runFetchCase(o *out, r *rand.Rand, adversarial bool, starve bool) {
 		lossy = false
 		maxConsumes = 2
 		fc.starved = objs[0]
+	}
+	if opt.bigSegs > 0 {
+		lossy = false
+	}
+	if opt.sendFault {
+		// the face refuses to send chosen Interests: the metadata Interest, the first segment, or one mid-stream;
+		// for the first `budget` attempts (transient) or always (permanent)
+		target := r.Intn(3)
+		budget := 1 + r.Intn(2)
+		if r.Intn(2) == 0 {
+			budget = 1 << 30
+		}
+		midSeg := uint64(1 + r.Intn(3))
+		fc.eng.failSend = func(name enc.Name) bool {
+			last := name[len(name)-1]
+			hit := false
+			switch target {
+			case 0:
+				hit = last.Typ == enc.TypeKeywordNameComponent
+			case 1:
+				hit = last.Typ == enc.TypeSegmentNameComponent && last.NumberVal() == 0
+			default:
+				hit = last.Typ == enc.TypeSegmentNameComponent && last.NumberVal() == midSeg
+			}
+			if hit && budget > 0 {
+				budget--
+				return true
+			}
+			return false
+		}
 	}
 	consumes := 0
 	steps := 0
@@ -385,6 +441,10 @@ func runFetchCase(o *out, r *rand.Rand, adversarial bool, starve bool) {
 		case "out":
 			o.pf("EV run out\n")
 			fc.cli.VerifStep(object.VerifChanOut)
+			for _, x := range fc.eng.sendErrs {
+				o.pf("SENDERR %d\n", x) // Express returned an error; the Interest stays pending (engine semantics)
+			}
+			fc.eng.sendErrs = nil
 		case "segin":
 			o.pf("EV run segin\n")
 			fc.cli.VerifStep(object.VerifChanSegIn)
@@ -421,6 +481,9 @@ func (fc *fetchCase) deliver(p *pendingX, lossy, adversarial bool) {
 		lossP = 30
 	}
 	x := r.Intn(100)
+	if p.failed {
+		x, lossP = 0, 100 // never sent: the pending entry can only time out
+	}
 	if x < lossP {
 		kind := "timeout"
 		res := ndn.InterestResultTimeout
